@@ -2,6 +2,7 @@ import Hts.Drv.Util
 import Hts.Model.Itf8
 import Hts.Model.Ltf8
 import Hts.Spec.Itf8
+import Hts.Model.CramStream
 namespace Hts.Drv.C20
 open Hts.Drv Hts.Model
 
@@ -33,6 +34,20 @@ def handle (cmd : String) (args : List String) : Option String :=
     let bs ← parseHex h
     let (v, n, ok) := Ltf8.decode (bs.map (BitVec.ofNat 8))
     some s!"{v.toInt} {n} {boolStr ok}"
+  | "itf8.stream", [h] => do
+    let bs ← parseHex h
+    match CramStream.itf8 (bs.map (BitVec.ofNat 8)) with
+    | .ok (v, rest) => some s!"{v.toInt} {bs.length - rest.length}"
+    | .error .eof => some "eof"
+    | .error .unexpectedEOF => some "ueof"
+    | .error .undecodable => some "undecodable"
+  | "ltf8.stream", [h] => do
+    let bs ← parseHex h
+    match CramStream.ltf8 (bs.map (BitVec.ofNat 8)) with
+    | .ok (v, rest) => some s!"{v.toInt} {bs.length - rest.length}"
+    | .error .eof => some "eof"
+    | .error .unexpectedEOF => some "ueof"
+    | .error .undecodable => some "undecodable"
   | _, _ => none
 
 end Hts.Drv.C20
